@@ -560,3 +560,56 @@ TRUSTED = [
     "Python harness: generators, canonicalisation of observations, parsing of coqc output",
     "CPython 3.12 evaluation of transforge; rdflib where graphs are involved",
 ]
+
+
+# --------------------------------------------------------------------------
+# how much of the anchored code did the correspondence run execute?
+
+class LineCoverage:
+    """Measures, with coverage.py, which lines of the named functions of one
+    transforge module were executed between start() and stop().  Reported in
+    the evidence as a measure of how tightly the generated cases tie the model
+    to the code; never a verdict."""
+
+    def __init__(self, module_rel: str, functions: list[str]):
+        self.path = str(REPO / module_rel)
+        self.functions = functions
+        self.cov = None
+
+    def start(self):
+        try:
+            import coverage
+        except ImportError:
+            return
+        self.cov = coverage.Coverage(include=[self.path], data_file=None)
+        self.cov.start()
+
+    def stop(self) -> dict:
+        if self.cov is None:
+            return {"available": False}
+        import ast
+        self.cov.stop()
+        try:
+            _, statements, _, missing, _ = self.cov.analysis2(self.path)
+        except Exception as e:  # noqa: BLE001
+            return {"available": False, "error": str(e)}
+        tree = ast.parse(open(self.path).read())
+        spans = {}
+        for node in ast.walk(tree):
+            if isinstance(node, ast.ClassDef):
+                for f in node.body:
+                    if isinstance(f, ast.FunctionDef):
+                        spans[f"{node.name}.{f.name}"] = (f.lineno, f.end_lineno)
+            elif isinstance(node, ast.FunctionDef):
+                spans.setdefault(node.name, (node.lineno, node.end_lineno))
+        out = {}
+        stm, mis = set(statements), set(missing)
+        for fn in self.functions:
+            if fn not in spans:
+                out[fn] = "not found"
+                continue
+            a, b_ = spans[fn]
+            st = [l for l in stm if a <= l <= b_]
+            ms = sorted(l for l in mis if a <= l <= b_)
+            out[fn] = {"statements": len(st), "executed": len(st) - len(ms), "not_executed_lines": ms}
+        return {"available": True, "file": self.path, "functions": out}
